@@ -38,7 +38,20 @@ Lemma frag_add : forall f ab b db,
   ((f + b) mod W64 + ab) mod W64 = (db + b) mod W64.
 Proof. intros f ab b db H. unfold W64 in *. lia. Qed.
 
-Ltac nomod := lazymatch goal with |- context [W64] => fail | _ => lia end.
+Ltac nomod :=
+  lazymatch goal with
+  | |- context [W64] => fail
+  | |- _ -> _ => fail
+  | _ => repeat match goal with
+                | H : forall _, _ |- _ => clear H
+                | H : Inv _ _ |- _ => clear H
+                | H : NoDup _ |- _ => clear H
+                | H : pc_ok _ _ _ |- _ => clear H
+                | H : thr_at _ _ _ |- _ => clear H
+                | H : nth_error _ _ = _ |- _ => clear H
+                | H : _ mod W64 = _ |- _ => clear H
+                end; lia
+  end.
 
 Section SINV.
 Variable c : cfg.
